@@ -11,7 +11,10 @@
    check_spec  : the raw observations satisfy the property statement (identity for interfaces,
                  classes and class specifications, equal and hash-equal; same interfaces for
                  provides-declarations and declared objects; only names in the payload; every
-                 protocol 0..5 covered).  It never calls run / reduce / rebuild. *)
+                 protocol 0..5 covered; for every history the unpickled instance declaration provides at
+                 least what the original does and nothing but what was named for the instance or is
+                 implemented by its class now).  It never calls reduce / rebuild; run is used only to
+                 decide where identity is demanded (model_shared). *)
 From Coq Require Import List NArith ZArith Bool Arith.
 From Coq Require Export Strings.String.   (* generated case files spell names as "..."%string *)
 Import ListNotations.
@@ -239,10 +242,45 @@ Definition spec_xproc (ordered : bool) (io : item_obs) (o : obs) : bool :=
   | ItInst _ => ob_struct o && (if ordered then same_lists io o else true)
   end.
 
+(* ---- bounds that hold for EVERY history, also when a class was re-declared after its instances
+   were: what the unpickled declaration / object provides (flattened)
+     - includes everything the original provides at round-trip time, and
+     - is made of names only: the interfaces some directlyProvides / alsoProvides call named for
+       this very instance (and what those extend), plus what its class implements NOW -- never a
+       snapshot of what the class implemented earlier ("stores only names, never the definition").
+   Computed from the history text and the observed flattened() of the class specification. *)
+Definition subset (a b : list nat) : bool := forallb (fun x => mem_nat x b) a.
+
+Definition named_for (o : nat) (ops : list op) : list nat :=
+  flat_map (fun x => match x with
+                     | OpDirectlyProvides o' is | OpAlsoProvides o' is => if Nat.eqb o o' then is else []
+                     | _ => []
+                     end) ops.
+
+Definition class_flattened (items : list item_obs) (c : nat) : list nat :=
+  flat_map (fun io => match io_item io with
+                      | ItImpl c' => if Nat.eqb c c' then io_fbefore io else []
+                      | _ => []
+                      end) items.
+
+Definition inst_of (it : item) : option nat :=
+  match it with ItProv o | ItInst o => Some o | _ => None end.
+
+Definition bounds_ok (w : world) (ops : list op) (items : list item_obs) (io : item_obs) (o : obs) : bool :=
+  match inst_of (io_item io) with
+  | None => true
+  | Some i =>
+      let allowed := 9 :: flat_map (iface_anc (fuel_of w) w) (named_for i ops)
+                       ++ class_flattened items (fst (nth i (w_insts w) (0, []))) in
+      negb (ob_ok o) || (subset (io_fbefore io) (ob_fafter o) && subset (ob_fafter o) allowed)
+  end.
+
 Definition check_spec (c : case_t) : bool :=
   let '(w, ops, items) := c in
   let ordered := module_ordered false ops in
   forallb (fun io =>
     all_protocols (io_live io) && all_protocols (io_xproc io)
     && forallb (spec_live (ordered || model_shared w ops (io_item io)) io) (io_live io)
-    && forallb (spec_xproc ordered io) (io_xproc io)) items.
+    && forallb (spec_xproc ordered io) (io_xproc io)
+    && forallb (bounds_ok w ops items io) (io_live io)
+    && forallb (bounds_ok w ops items io) (io_xproc io)) items.
